@@ -209,9 +209,9 @@ def run(ctx):
         nodel = v[('has', 'z')] or not r1.startswith('Delete')
         ctx.check(sym and nodel, 'C18.R3', vdesc(v), 'mirror(%s) == %s' % (r1, r2),
                   'reconcile_path is not mirror-symmetric or deletes without a base at %s: %s vs swapped %s' % (vdesc(v), r1, r2), where)
-    same_rule(ctx, F)
-    reconcile_rule(ctx, F)
-    lean_crosscheck(ctx, vals, table)
+    ctx.attempt(same_rule, ctx, F)
+    ctx.attempt(reconcile_rule, ctx, F)
+    ctx.attempt(lean_crosscheck, ctx, vals, table)
 
 
 def same_rule(ctx, F):
